@@ -163,6 +163,11 @@ pub fn f2(tier: Tier) -> Vec<SemCase> {
             "for (X = 0; X < 3; X++) { for (Y = 0; Y < 3; Y++) { if (Y == 1) continue; r++; } if (X == 1) break; }",
             "while (a) { b = 2; do { r++; b--; } while (b); a--; }",
             "for (X = 0; X < 2; X++) { if (a) { for (Y = 0; Y < 2; Y++) r += 2; } else r++; }",
+            "if (a) if (b) r = 1; else r = 2; else r = 3;",
+            "if (a) if (b) r = 1; else r = 2;",
+            "if (a) { if (b) r = 1; } else r = 2;",
+            "if (a == 1) if (b == 2) if (c == 3) r = 1; else r = 2; else r = 3; else r = 4;",
+            "if (a) while (b) { b--; if (b == 1) r = 5; else r++; } else r = 7;",
         ] {
             v.push(case_from_text("F2.nest", &main_with(d, FUNCS_FG, &format!("r = 0; {}", body)), &small, vec!["nested"], 300));
         }
